@@ -181,6 +181,10 @@ var registry = []propertySpec{
 				Bounds: "four symbolic component scores in [0,1]; default weights and symbolic non-negative weights summing to 1"},
 			{Name: "VerifC12_Surrounding", Quick: tierSpec{Cases: 32}, Thorough: tierSpec{Cases: 32}, Sched: -1,
 				Bounds: "two individuals (one symbolic given-name byte each) whose parents family and spouse-and-child family are present or missing independently on each side (4 x 4 shapes) x forced / skippable full calculation"},
+			{Name: "VerifC12_Lists", Quick: tierSpec{Cases: 9}, Thorough: tierSpec{Cases: 9}, Sched: -1,
+				Bounds: "two lists of 3..5 undated siblings (9..25 pairs, many of them with equal scores), one symbolic byte over {n,b} in three names of each list"},
+			{Name: "VerifC12_Ties", Quick: tierSpec{Cases: 2, Split: 2}, Thorough: tierSpec{Cases: 2, Split: 2}, Sched: -1,
+				Bounds: "two lists of four siblings with missing birth / death dates (16 pairs, many with exactly equal scores): 2 left templates x every right list over 3 names x {no birth, 1900, 1901} per sibling (6,561 lists each)"},
 			{Name: "VerifC12_Individual", Quick: tierSpec{Cases: 81}, Thorough: tierSpec{Cases: 81}, Sched: -1,
 				Bounds: "two individuals: given name of 0..2 symbolic bytes over {a,b,c}, birth year symbolic 1800..1803 / unparsable / missing; lists of 2 and 1"},
 		},
@@ -286,7 +290,7 @@ var registry = []propertySpec{
 			{Name: "VerifC15_Special", Pkg: "q", Quick: tierSpec{Cases: 50}, Thorough: tierSpec{Cases: 50}, Sched: -1,
 				Bounds: "25 hostile programs (self-referential variables, nil pipelines, deep .Nodes chains, pipelines over lists of lists, syntax garbage) on 2 document sets"},
 			{Name: "VerifC15_Accessors", Pkg: "q", Quick: tierSpec{Cases: 40}, Thorough: tierSpec{Cases: 40}, Sched: -1,
-				Bounds: "every accessor that reflection exposes (the list printed by 'source | ?') applied to 10 sources (document, individuals, families, names, births, husbands, nodes, strings, a number) on 4 document sets, every result to all five formatters"},
+				Bounds: "every accessor that reflection exposes (the list printed by 'source | ?') applied to 10 sources (document, individuals, families, names, births, husbands, nodes, strings, a number) on 4 document sets, every result to all five formatters; plus the names of struct fields (every accessor in camel and lower case, 30 field names of the document and node types, exported and unexported) as accessors, inside an object and a filter"},
 			{Name: "VerifC15_Arguments", Pkg: "q", Quick: tierSpec{Cases: 40 * 3 * 2}, Thorough: tierSpec{Cases: 40 * 3 * 2}, Sched: -1,
 				Bounds: "40 calls with negative, non-numeric, huge, nested and ill-typed arguments x 3 sources x 2 document sets"},
 			{Name: "VerifC15_Parse", Pkg: "q", Quick: tierSpec{Cases: 4}, Thorough: tierSpec{Cases: 4}, Sched: -1,
